@@ -27,6 +27,8 @@ ASSUMPTIONS = [
     "fixed port-ID collisions that involve a definition outside the target namespace are not asserted either way (the reader documents that it checks the read namespace only)",
 ]
 BUDGET = {"quick": 1000, "thorough": 20000}
+# coverage-guided twins (thorough tier): part name -> executions per shard; see core.cover
+COVER = {"target": 2000}
 
 PORTS = {False: [6200, 6201], True: [300, 301]}
 UNREGULATED_PORTS = {False: [0, 7], True: [0, 5]}  # used with allow_unregulated_fixed_port_id=True (0 is a valid port-ID)
